@@ -52,6 +52,7 @@ pub fn check(case: &Case) -> Outcome {
     let mut paused = false;
     let mut snaps: Vec<Snapshot> = vec![snap(&mut um, paused)];
     let mut recorded: Vec<&Op> = vec![];
+    let mut touched_by: Vec<Vec<(u32, i32, i32, i32, i32)>> = vec![];
     let mut changed_any = false;
     for op in &case.ops {
         if let Some(reason) = ops::guard(&um, op, case.profile) {
@@ -60,6 +61,7 @@ pub fn check(case: &Case) -> Outcome {
             continue;
         }
         let before = um.verif_history_len();
+        let op_touches = touched(&um, op);
         let res = ops::apply(&mut um, op);
         match op {
             Op::Pause => paused = true,
@@ -89,6 +91,7 @@ pub fn check(case: &Case) -> Outcome {
                     }
                     snaps.push(s);
                     recorded.push(op);
+                    touched_by.push(op_touches);
                     o = o.label(format!("recorded:{}", op.kind()));
                 } else if after.0 == before.0 {
                     // Ok without history entry: must be a no-op on the observable workbook
@@ -144,7 +147,10 @@ pub fn check(case: &Case) -> Outcome {
         let expect = &snaps[n - k];
         if &s != expect {
             let d = snapshot::diff(expect, &s);
-            if residual_styled_empty_cells(&d, expect, &s) {
+            // cells written by the undone operation or by one undone before it in this walk (a
+            // residual empty cell shows only when the band style it inherited is undone later)
+            let acc: Vec<(u32, i32, i32, i32, i32)> = touched_by[n - k..].iter().flatten().cloned().collect();
+            if residual_styled_empty_cells(&d, expect, &s, &acc) {
                 return o.fail(
                     "C01:undo:cell-keeps-style-implied-by-undone-edit",
                     format!(
@@ -173,10 +179,61 @@ pub fn check(case: &Case) -> Outcome {
     o
 }
 
+/// Cells an operation writes content into, resolved against the model state *before* the
+/// operation: (sheet, r1, c1, r2, c2). Used to keep the residual-style classifier narrow.
+fn touched(um: &ironcalc_base::UserModel, op: &Op) -> Vec<(u32, i32, i32, i32, i32)> {
+    let sh = |s: u8| ops::res_sheet(um, s);
+    match op {
+        Op::Input { s, row, col, .. } | Op::LinkSet { s, row, col, .. } => vec![(sh(*s), *row, *col, *row, *col)],
+        // clearing a cell that does not exist yet creates an empty cell with the inherited style
+        Op::ClearContents(a) | Op::ClearAll(a) | Op::ClearFormatting(a) => {
+            vec![(sh(a.s), a.row, a.col, a.row + a.h - 1, a.col + a.w - 1)]
+        }
+        // style operations on cells that do not exist yet create them; a border also adjusts
+        // the neighbouring cells
+        Op::UpdateStyle { a, .. } if (a.w as i64) * (a.h as i64) <= 64 => {
+            vec![(sh(a.s), a.row, a.col, a.row + a.h - 1, a.col + a.w - 1)]
+        }
+        Op::Border { a, .. } if (a.w as i64) * (a.h as i64) <= 64 => {
+            vec![(sh(a.s), a.row - 1, a.col - 1, a.row + a.h, a.col + a.w)]
+        }
+        Op::PasteStyles { .. } | Op::NamedStyleApply { .. } => {
+            let v = um.get_selected_view();
+            let [r1, c1, r2, c2] = v.range;
+            vec![(v.sheet, r1.min(r2), c1.min(c2), r1.max(r2) + 2, c1.max(c2) + 2)]
+        }
+        Op::ArrayFormula { s, row, col, w, h, .. } => vec![(sh(*s), *row, *col, row + h - 1, col + w - 1)],
+        Op::PasteCsv { a, csv } => {
+            let rows = csv.lines().count().max(1) as i32;
+            let cols = csv.lines().map(|l| l.split('\t').count()).max().unwrap_or(1) as i32;
+            vec![(sh(a.s), a.row, a.col, a.row + rows - 1, a.col + cols - 1)]
+        }
+        Op::CopyPaste { src, ts, trow, tcol, cut } => {
+            let mut v = vec![(sh(*ts), *trow, *tcol, trow + src.h - 1, tcol + src.w - 1)];
+            if *cut {
+                v.push((sh(src.s), src.row, src.col, src.row + src.h - 1, src.col + src.w - 1));
+            }
+            v
+        }
+        Op::AutofillRows { a, to_row } => {
+            vec![(sh(a.s), a.row.min(*to_row), a.col, (a.row + a.h - 1).max(*to_row), a.col + a.w - 1)]
+        }
+        Op::AutofillCols { a, to_col } => {
+            vec![(sh(a.s), a.row, a.col.min(*to_col), a.row + a.h - 1, (a.col + a.w - 1).max(*to_col))]
+        }
+        _ => vec![],
+    }
+}
+
 /// Root-cause classifier: every difference is a `style*` / `formatted` aspect of a cell that
 /// had the default style before the undone edit (absent, or present without any `.style.` key):
 /// the undo removed the content but kept the style the edit implied.
-fn residual_styled_empty_cells(d: &[snapshot::DiffEntry], expect: &Snapshot, _got: &Snapshot) -> bool {
+fn residual_styled_empty_cells(
+    d: &[snapshot::DiffEntry],
+    expect: &Snapshot,
+    _got: &Snapshot,
+    touched: &[(u32, i32, i32, i32, i32)],
+) -> bool {
     if d.is_empty() {
         return false;
     }
@@ -185,6 +242,17 @@ fn residual_styled_empty_cells(d: &[snapshot::DiffEntry], expect: &Snapshot, _go
         let cell = &e.key[..pos + 1];
         let aspect = &e.key[pos + 2..];
         if !cell.contains(".cell(") || !(aspect.starts_with("style") || aspect == "formatted") {
+            return false;
+        }
+        // only cells the undone operation itself wrote into: "sheet[i].cell(r,c)"
+        let parsed = (|| {
+            let i: u32 = cell.strip_prefix("sheet[")?.split(']').next()?.parse().ok()?;
+            let rc = cell.split(".cell(").nth(1)?.trim_end_matches(')');
+            let (r, c) = rc.split_once(',')?;
+            Some((i, r.parse::<i32>().ok()?, c.parse::<i32>().ok()?))
+        })();
+        let Some((si, r, c)) = parsed else { return false };
+        if !touched.iter().any(|t| t.0 == si && r >= t.1 && r <= t.3 && c >= t.2 && c <= t.4) {
             return false;
         }
         let prefix = format!("{cell}.style.");
@@ -233,6 +301,7 @@ pub fn run(ctx: &Ctx) {
     if restricted {
         ctx.campaign("histories-edit", cases / 2, || case_strategy(len, Profile::Edit), check, enc);
         ctx.campaign("histories-structural", cases / 2, || case_strategy(len, Profile::Structural), check, enc);
+
     } else {
         ctx.campaign("histories", cases, || case_strategy(len, Profile::Full), check, enc);
     }
